@@ -90,9 +90,18 @@ class Rule:
         return cls.from_spec(json_like)
 
     def to_json_like(self, *args, **kwargs):
+        cast = None
+        if self.cast is not None:
+            # invert the look-ups used in `from_spec`: {type: function} -> {"str": "bool"}
+            type_names = {v: k for k, v in CAST_DTYPE_LOOKUP.items()}
+            cast_to_types = {(k[0], v): k[1] for k, v in CAST_LOOKUP.items()}
+            cast = {
+                type_names[cast_from]: type_names[cast_to_types[(cast_from, cast_func)]]
+                for cast_from, cast_func in self.cast.items()
+            }
         out = {
             "condition": self.condition.to_json_like(),
-            "cast": self.cast,
+            "cast": cast,
             "path": self.path.to_json_like(),
         }
         if "shared_data" in kwargs:
